@@ -7,7 +7,7 @@ use std::sync::Arc;
 use std::time::{Duration, Instant};
 
 use hickory_net::{DnsError, ForwardNSData, NetError, NoRecords};
-use hickory_proto::op::{Message, OpCode, Query, ResponseCode};
+use hickory_proto::op::{DnsResponse, Message, OpCode, Query, ResponseCode};
 use hickory_proto::rr::rdata::{A, AAAA, CNAME, MX, NS, PTR, SOA, TXT};
 use hickory_proto::rr::{Name, RData, Record, RecordType};
 use hickory_proto::ProtoError;
@@ -82,6 +82,10 @@ fn tag_of_rdata(d: &RData) -> u32 {
             .unwrap_or(u32::MAX),
         _ => u32::MAX,
     }
+}
+
+pub fn tag_of_record(r: &Record) -> u32 {
+    tag_of_rdata(&r.data)
 }
 
 pub fn mk_query(name_idx: usize, qtype: u16) -> Query {
@@ -163,6 +167,45 @@ pub fn mk_result(q: &Query, v: &View) -> Result<Message, NetError> {
             nr.ns = Some(Arc::from(ns));
         }
         Err(NetError::Dns(DnsError::NoRecordsFound(nr)))
+    }
+}
+
+/// M1 glue: what happens in production between the transport and the cache when an upstream
+/// response arrives for `q`, reduced to the calls that decide *what is cached*:
+///   transport            `DnsResponse::from_buffer(bytes)`              (udp/tcp/h2/quic client streams)
+///   `NameServer::send`   `DnsError::from_response(response)`            (name_server.rs)
+///   `NameServerPool`     `Ok(response) if response.truncation` → retried over TCP, finally the
+///                        error "received truncated response"            (name_server_pool.rs)
+///   recursor `lookup`    `Err(e)` → `cache.insert(q, Err(e), now)`, `Ok(r)` → `cache.insert(q, Ok(message), now)`
+///                                                                       (recursor/handle.rs)
+/// (`CachingClient` calls `from_response` itself and is observed end to end in m2.rs.)
+/// Returns what hickory made of the message (counter name).
+pub fn insert_upstream(cache: &ResponseCache, q: &Query, wire: &[u8], now: Instant) -> &'static str {
+    let resp = match DnsResponse::from_buffer(wire.to_vec()) {
+        Ok(r) => r,
+        Err(e) => {
+            cache.insert(q.clone(), Err(NetError::from(e)), now);
+            return "undecodable";
+        }
+    };
+    match DnsError::from_response(resp) {
+        Ok(r) if r.truncation => {
+            cache.insert(q.clone(), Err(NetError::from("received truncated response")), now);
+            "ok_truncated"
+        }
+        Ok(r) => {
+            cache.insert(q.clone(), Ok(r.into_message()), now);
+            "ok_message"
+        }
+        Err(e) => {
+            let kind = match &e {
+                DnsError::NoRecordsFound(_) => "no_records_found",
+                DnsError::ResponseCode(_) => "response_code",
+                _ => "other_dns_error",
+            };
+            cache.insert(q.clone(), Err(NetError::from(e)), now);
+            kind
+        }
     }
 }
 
